@@ -269,7 +269,7 @@ pub fn gen(tier: &str, rng: &mut Rng, emit: &mut Emit) {
     }
     // (Spec/Layout.v `walk` recomputes the remaining length at every step: quadratic in the image size, hours for this
     // 524 KB image under the C03 oracle -- the run is left to the other properties until the walker is made linear)
-    if thorough {
+    if thorough && long_runs_affordable(emit) {
         let c = rand_ctor(rng);
         let ops = (0..65_540).map(|_| l(vec![a(2), a(rng.below(3))])).collect();
         emit.case(17, history(rng, c, ops));
